@@ -52,10 +52,40 @@ def g_down(rng, n, p):
     return "".join(map(str, ds)) or "-"
 
 
+GROUPS, NAMES, IDS = ("g0", "g1"), ("p0", "p1"), ("x", "y")
+
+
+def key_name(k):
+    p = k.split("/")
+    return p[1] if len(p) == 3 else "p0"
+
+
+def g_keys(rng, nk):
+    """keys are triples group/name/id; ids are deliberately shared across names and groups, names across groups
+    (one shard per group holds every name of the group)"""
+    first = (rng.choice(GROUPS), rng.choice(NAMES), rng.choice(IDS))
+    keys = [first]
+    tries = 0
+    while len(keys) < nk and tries < 50:
+        tries += 1
+        r = rng.random()
+        if r < 0.45:      # same group, same id, other name  (same shard)
+            k = (first[0], rng.choice(NAMES), first[2])
+        elif r < 0.7:     # other group, same name and id
+            k = (rng.choice(GROUPS), first[1], first[2])
+        elif r < 0.85:    # same group and name, other id
+            k = (first[0], first[1], rng.choice(IDS))
+        else:
+            k = (rng.choice(GROUPS), rng.choice(NAMES), rng.choice(IDS))
+        if k not in keys:
+            keys.append(k)
+    return ["/".join(k) for k in keys]
+
+
 MAX_APPLIES_PER_KEY = 10   # shard.repair's sort.Sort is stable (insertion sort) only up to 12 documents of one key
 
 
-def g_ops(rng, n, nk, count, p_down, exchanges, ts0=0, explicit=False, monotone=True):
+def g_ops(rng, n, keys, count, p_down, exchanges, ts0=0, explicit=False, monotone=True):
     ops, ts = [], ts0
     applied = {}
     for _ in range(count):
@@ -63,7 +93,7 @@ def g_ops(rng, n, nk, count, p_down, exchanges, ts0=0, explicit=False, monotone=
             ts += rng.choice([1, 1, 7, 10, 1000]) if explicit else 10
         else:
             ts = max(1, ts + rng.choice([0, 0, -3, 5, 10]))
-        k = "k%d" % rng.randrange(nk)
+        k = rng.choice(keys)
         r = rng.random()
         if r < 0.42 and applied.get(k, 0) >= MAX_APPLIES_PER_KEY:
             r = 0.6
@@ -75,7 +105,7 @@ def g_ops(rng, n, nk, count, p_down, exchanges, ts0=0, explicit=False, monotone=
         elif r < 0.70:
             ops.append("Q %s %d" % (g_down(rng, n, p_down), rng.choice([0, 1, 1]) if p_down > 0 or exchanges else 1))
         elif r < 0.77:
-            ops.append("O a %s %s" % (rng.choice("ad"), g_down(rng, n, p_down)))
+            ops.append("O %s a %s %s" % (key_name(rng.choice(keys)), rng.choice("ad"), g_down(rng, n, p_down)))
         elif exchanges and n > 1 and r < 0.89:
             a, b = rng.sample(range(n), 2)
             ops.append("R %d %d %s" % (a, b, k))
@@ -87,41 +117,42 @@ def g_ops(rng, n, nk, count, p_down, exchanges, ts0=0, explicit=False, monotone=
     return ops, ts
 
 
-def g_exchange_phase(rng, n, nk):
+def g_exchange_phase(rng, n, keys):
     """every unordered pair of replicas exchanges every key at least once (random order and direction),
     interleaved with arbitrary extra one-way repairs and exchanges"""
     ex = []
-    for k in range(nk):
+    for k in keys:
         for a, b in itertools.combinations(range(n), 2):
             if rng.random() < 0.5:
                 a, b = b, a
-            ex.append("G %d %d k%d" % (a, b, k))
+            ex.append("G %d %d %s" % (a, b, k))
     for _ in range(rng.randint(0, 4)):
         a, b = rng.sample(range(n), 2)
-        ex.append("%s %d %d k%d" % (rng.choice("RG"), a, b, rng.randrange(nk)))
+        ex.append("%s %d %d %s" % (rng.choice("RG"), a, b, rng.choice(keys)))
     rng.shuffle(ex)
     return ex
 
 
 def g_history(rng, kind):
     n = rng.choice([1, 2, 3, 3, 3])
-    nk = rng.choice([1, 2, 2, 3])
+    nk = rng.choice([1, 2, 2, 3, 4])
+    keys = g_keys(rng, nk)
     if kind == "Hmap":
-        ops, _ = g_ops(rng, n, nk, rng.randint(3, 20), 0.0, False)
+        ops, _ = g_ops(rng, n, keys, rng.randint(3, 20), 0.0, False)
     elif kind == "Hflt":
         n = rng.choice([2, 3, 3])
-        ops, _ = g_ops(rng, n, nk, rng.randint(3, 22), 0.35, True)
+        ops, _ = g_ops(rng, n, keys, rng.randint(3, 22), 0.35, True)
     elif kind == "Hconv":
         n = rng.choice([2, 3, 3])
-        ops, _ = g_ops(rng, n, nk, rng.randint(2, 14), 0.5, rng.random() < 0.5)
+        ops, _ = g_ops(rng, n, keys, rng.randint(2, 14), 0.5, rng.random() < 0.5)
         # make sure every key of the exchange phase is known
-        ops += ["E"] + g_exchange_phase(rng, n, nk) + ["F", "Q - 0"]
+        ops += ["E"] + g_exchange_phase(rng, n, keys) + ["F", "Q - 0"]
         if rng.random() < 0.3:
-            ops.append("O a %s -" % rng.choice("ad"))
+            ops.append("O %s a %s -" % (key_name(rng.choice(keys)), rng.choice("ad")))
     elif kind == "Hclk":
-        ops, _ = g_ops(rng, n, nk, rng.randint(3, 16), 0.0, False, ts0=rng.choice([0, 10 ** 6]), explicit=True)
+        ops, _ = g_ops(rng, n, keys, rng.randint(3, 16), 0.0, False, ts0=rng.choice([0, 10 ** 6]), explicit=True)
     elif kind == "Hskw":
-        ops, _ = g_ops(rng, n, rng.choice([1, 2]), rng.randint(3, 10), 0.0, False, ts0=50, explicit=True, monotone=False)
+        ops, _ = g_ops(rng, n, keys[:2], rng.randint(3, 10), 0.0, False, ts0=50, explicit=True, monotone=False)
     elif kind == "Hbig":
         # one key written more often than the search limit, nothing else: class of finding F18b
         n = rng.choice([1, 2])
@@ -134,10 +165,10 @@ def g_history(rng, kind):
         ops.append("Q - 0")
     elif kind == "HFmrk":
         n = rng.choice([2, 3])
-        ops, _ = g_ops(rng, n, nk, rng.randint(1, 8), 0.5, True)
+        ops, _ = g_ops(rng, n, keys, rng.randint(1, 8), 0.5, True)
         a, b = rng.sample(range(n), 2)
         ops.append("M %d %d" % (a, b))
-        ops += g_exchange_phase(rng, n, nk)
+        ops += g_exchange_phase(rng, n, keys)
         for a, b in itertools.combinations(range(n), 2):
             ops.append("M %d %d" % (a, b))
     return "%s %d | " % (kind, n) + " | ".join(ops)
@@ -340,7 +371,7 @@ class C18(vlib.Spec):
                 body, rq = res[2:].rsplit(",rq", 1)
                 if body != "-":
                     items = body.split(";")
-                    has = [x for x in items if any(t.startswith(o[1] + ":") for t in x.split("/", 2)[2].split(","))]
+                    has = [x for x in items if any(t.startswith(o[2] + ":") for t in x.split("=", 1)[1].split("/", 2)[2].split(","))]
                     no = sorted(x for x in items if x not in has)
                     body = ";".join(has + no)
                 parts[i] = "O:%s,rq%s ~ %s" % (body, rq, st)
@@ -485,8 +516,9 @@ class C18(vlib.Spec):
                 ref.pop(o[1], None)
             elif o[0] in "QO" and ref_ok and strict_clock and not res.endswith("ERR"):
                 got = {p[0]: (p[2], p[1], p[3]) for p in parse_props(res[2:].rsplit(",rq", 1)[0])}
-                if got != ref:
-                    raise Violation("%s: query differs from the reference map: got %s, want %s" % (where, got, ref))
+                want = ref if o[0] == "Q" else {k: v for k, v in ref.items() if key_name(k) == o[1]}
+                if got != want:
+                    raise Violation("%s: query differs from the reference map: got %s, want %s" % (where, got, want))
             for k in set().union(*[set(x) for x in after]):
                 if has_dup(after, k):
                     dup_seen.add(k)
@@ -510,7 +542,7 @@ class C18(vlib.Spec):
         elif o[0] == "Q":
             d = o[1]
         elif o[0] == "O":
-            d = o[3]
+            d = o[4]
         if d is None or d == "-":
             return list(range(n))
         return [i for i in range(n) if str(i) not in d]
@@ -619,6 +651,8 @@ class C18(vlib.Spec):
             body, rq = res[2:].rsplit(",rq", 1)
             got = parse_props(body)
             keys = sorted(set().union(*[set(b) for b in before])) if before else []
+            if o[0] == "O":
+                keys = [k for k in keys if key_name(k) == o[1]]
             want, tasks = {}, 0
             for k in keys:
                 docs = [(r, d) for r in up for d in before[r].get(k, [])]
@@ -639,11 +673,11 @@ class C18(vlib.Spec):
             if up and int(rq) != tasks:
                 raise Violation("%s: %s read-repair tasks queued, want %d" % (where, rq, tasks))
             if o[0] == "O":
-                tag, desc = o[1], o[2] == "d"
+                tag, desc = o[2], o[3] == "d"
                 vals = [dict(p[3]).get(tag) for p in got]
                 have = [v for v in vals if v is not None]
                 if vals[:len(have)] != have or have != sorted(have, reverse=desc):
-                    raise Violation("%s: ordered query not ordered by %s (%s): %s" % (where, tag, o[2], vals))
+                    raise Violation("%s: ordered query not ordered by %s (%s): %s" % (where, tag, o[3], vals))
             run = o[0] == "O" or o[2] == "1"
             if not run or not up:
                 unchanged(range(n))
